@@ -101,7 +101,7 @@ def load_known():
 
 # a shape rule stays decisive while the function is within this many added / removed / split / merged statements of
 # the reference shape (small edits); beyond it the function has been rewritten and the rule abstains
-DRIFT_TOLERANCE = 3
+DRIFT_TOLERANCE = int(os.environ.get("VERIF_DRIFT_TOLERANCE", "2"))
 
 
 def site_drift(prog, site):
